@@ -11,6 +11,7 @@ ill-formed answers `bad-op`).
   LRVALID <slot>               `valid` | `invalid <first failing conjunct>`
   RUN <slot> <fuel> <syms>     `accept <tree>` | `error <code|N> <index> <state> <expected>` |
                                `internal <why>` | `out-of-fuel`
+  LRTERM <slot>                `terminates` | `diverge below=<u|-> state=<s> key=<a>` (termination analysis)
   BISIM <slotA> <slotB>        `bisim ok pairs=<n> identity=<bool>` | `bisim mismatch path=<syms> at=<s>,<t> why=<..>`
   SAMERULES <slotA> <slotB>    `same` | `differ`
 Empty fields are written `-`.
@@ -23,6 +24,7 @@ Empty fields are written `-`.
 import Emboss.Model.Lr1
 import Emboss.Model.Lr1Valid
 import Emboss.Model.Lr1Bisim
+import Emboss.Model.Lr1Term
 import Std.Data.HashMap
 open Emboss.Lr1
 
@@ -253,6 +255,15 @@ def handlePure (st : St) (line : String) : St × String :=
       let c := mkCert g c
       (st, if validFast g a c then "valid" else "invalid " ++ validWhy g a c)
     | _, _, _ => (st, "bad-op")
+  | ["LRTERM", slot] =>
+    match st.auts[slot]? with
+    | some a =>
+      (st, if termOK a then "terminates" else
+        match termWhy a with
+        | some (u, s, k) =>
+          "diverge below=" ++ (match u with | some u => toString u | none => "-") ++ s!" state={s} key={k}"
+        | none => "diverge below=- state=- key=-")
+    | none => (st, "bad-op")
   | ["LRPART", slot, part] =>
     match st.auts[slot]?, st.gram, st.cert with
     | some a, some g, some c =>
